@@ -8,7 +8,7 @@ from mc.core import viol
 
 ID = 'C09'
 LEVEL = 'model_checking'
-RULE = ('explicit-state BFS over histories of runs on ONE recorder object: 33-letter run alphabet (record ok / raising / interrupted in the '
+RULE = ('explicit-state BFS over histories of runs on ONE recorder object: 35-letter run alphabet (record ok / raising / interrupted in the '
         'operation, in an input body, in an output body / discarded by operation, body, key fault, handler fault / sampled out / forced / '
         'forced-but-ignored / many outputs / skipped class / disabled / failing save / failing extractor / worker-thread interception; '
         'replay ok / with outputs / missing id / escaping missing key / playback function raising or interrupted / operation raising); '
@@ -42,6 +42,8 @@ RUNS = {
     'rec-skipped': ('rec', {'steps': BASE, 'cls': 'Ks'}),
     'rec-disabled': ('rec-disabled', {'steps': BASE}),
     'rec-save-raises': ('rec-save-raises', {'steps': BASE}),
+    'rec-disabled-midway': ('rec-reenable', {'steps': [O1, {'do': 'disable'}, A, O2]}),
+    'rec-disabled-in-body': ('rec-reenable', {'steps': [O1, dict(A, pre=[{'do': 'disable'}]), O2], 'end': 'raise:E1'}),
     'rec-ext-raises': ('rec', {'steps': BASE, 'cls': 'Kx'}),
     'rec-addmeta-raises': ('rec-bad-meta', {'steps': BASE}),
     'rec-addmeta-raises-forced': ('rec-bad-meta', {'steps': [{'do': 'force'}] + BASE, 'cls': 'K0'}),
@@ -90,6 +92,11 @@ class World(object):
             return P.record(prog, env=env)
         if kind == 'rec-disabled':
             env.tr.disable_recording()
+            try:
+                return P.record(prog, env=env)
+            finally:
+                env.tr.enable_recording()
+        if kind == 'rec-reenable':   # the service switches recording off while the operation runs, and on again afterwards
             try:
                 return P.record(prog, env=env)
             finally:
